@@ -18,8 +18,86 @@ package engine
 //@ ensures [response-metric] counterVal[i.metrics.Response] - old(counterVal[i.metrics.Response]) == ev(shoot) - old(ev(shoot))
 //@ ensures [out-of-ammo] imp(result == outOfAmmoErr, ev(acquire_ok) == old(ev(acquire_ok)))
 //@ panics ensures [release-per-acquire] ev(release) - old(ev(release)) == ev(acquire_ok) - old(ev(acquire_ok))
+//@ modifies ev(acquire_ok), ev(release), ev(token), ev(shoot), ev(report), counterVal[i.metrics.Request], counterVal[i.metrics.Response]
+//@ modifies waiter.overdueDuration, waiter.lastNow, waiter.timer, leftOf[waiter.sched], timerDeadline
 //@ at call i.aggregator.Report assert [discarded-sample] arg(s) == box(result_of(netsample.DiscardedShootSample, 0))
 //@ at call i.gun.Shoot assert [ammo-still-held] ev(release) == old(ev(release)) && ev(acquire_ok) == old(ev(acquire_ok)) + 1
 //@ at call i.gun.Shoot assert [not-late-when-discarding] imp(i.discardOverflow && !done(ctx), waiter.overdueDuration < 2000000000)
 //@ at call i.aggregator.Report assert [discard-only-when-late] i.discardOverflow && waiter.overdueDuration >= 2000000000
 //@ at call i.gun.Shoot assert [not-early] done(ctx) || now >= let_of(waiter.Wait, next)
+
+//@ func (i *instance) Run
+//@ props C03 C05
+//@ env i.metrics.Request != i.metrics.Response && i.metrics.InstanceFinish != i.metrics.Request && i.metrics.InstanceFinish != i.metrics.Response
+//@ env i.metrics.InstanceStart != i.metrics.Request && i.metrics.InstanceStart != i.metrics.Response && i.metrics.InstanceStart != i.metrics.InstanceFinish
+//@ ghost dReq = counterVal[i.metrics.Request]
+//@ loop 0 invariant waiter.lastNow <= now
+//@ loop 0 invariant [release-per-acquire] ev(release) - old(ev(release)) == ev(acquire_ok) - old(ev(acquire_ok))
+//@ loop 0 invariant [token-only-with-ammo] ev(token) - old(ev(token)) <= ev(acquire_ok) - old(ev(acquire_ok))
+//@ loop 0 invariant [shot-or-discard-per-token] (ev(shoot) - old(ev(shoot))) + (ev(report) - old(ev(report))) <= ev(token) - old(ev(token))
+//@ loop 0 invariant [request-metric] counterVal[i.metrics.Request] - old(counterVal[i.metrics.Request]) == ev(shoot) - old(ev(shoot))
+//@ loop 0 invariant [response-metric] counterVal[i.metrics.Response] - old(counterVal[i.metrics.Response]) == ev(shoot) - old(ev(shoot))
+//@ loop 0 invariant counterVal[i.metrics.InstanceFinish] == old(counterVal[i.metrics.InstanceFinish])
+//@ ensures [release-per-acquire] ev(release) - old(ev(release)) == ev(acquire_ok) - old(ev(acquire_ok))
+//@ ensures [token-only-with-ammo] ev(token) - old(ev(token)) <= ev(acquire_ok) - old(ev(acquire_ok))
+//@ ensures [shot-or-discard-per-token] (ev(shoot) - old(ev(shoot))) + (ev(report) - old(ev(report))) <= ev(token) - old(ev(token))
+//@ ensures [request-metric] counterVal[i.metrics.Request] - old(counterVal[i.metrics.Request]) == ev(shoot) - old(ev(shoot))
+//@ ensures [response-metric-or-failure] counterVal[i.metrics.Response] - old(counterVal[i.metrics.Response]) == ev(shoot) - old(ev(shoot)) || recoverErr != nil
+//@ ensures [finish-counted-once] counterVal[i.metrics.InstanceFinish] == old(counterVal[i.metrics.InstanceFinish]) + 1
+//@ modifies ev(acquire_ok), ev(release), ev(token), ev(shoot), ev(report), counterVal[i.metrics.Request], counterVal[i.metrics.Response]
+//@ modifies counterVal[i.metrics.InstanceStart], counterVal[i.metrics.InstanceFinish], leftOf[i.schedule], timerDeadline
+
+// ---------------------------------------------------------------- instance creation / start-up (C11, C12)
+
+//@ event gun_created sched_created
+
+//@ fieldfunc instanceDeps.newGun
+//@ ensures ev(gun_created) == old(ev(gun_created)) + 1
+//@ modifies ev(gun_created)
+
+//@ fieldfunc instanceDeps.newSchedule
+//@ ensures ev(sched_created) == old(ev(sched_created)) + 1
+//@ modifies ev(sched_created)
+
+//@ func newInstance
+//@ props C11 C12 C05
+//@ ensures [own-gun] imp(result1 == nil, ev(gun_created) == old(ev(gun_created)) + 1 && result0.gun == result_of(deps.newGun, 0))
+//@ ensures [at-most-one-gun] ev(gun_created) - old(ev(gun_created)) <= 1
+//@ ensures [id] imp(result1 == nil, fresh(result0) && result0.id == id && result0.schedule == result_of(deps.newSchedule, 0))
+//@ ensures [shared-deps] imp(result1 == nil, result0.provider == deps.provider && result0.aggregator == deps.aggregator && result0.discardOverflow == deps.discardOverflow && result0.metrics == deps.metrics)
+//@ ensures [error-means-no-instance] imp(result1 != nil, result0 == nil)
+//@ modifies ev(gun_created), ev(sched_created)
+
+//@ func (i *instance) Close
+//@ props C05
+//@ ensures [closable-gun-closed] ev(closer_close) - old(ev(closer_close)) == ite(typeis(i.gun, io.Closer), 1, 0)
+//@ modifies ev(closer_close)
+
+//@ func runNewInstance
+//@ props C05 C12
+//@ ensures [created-once] calls(newInstance) == 1 && arg_ok
+//@ ensures [closed-iff-created] imp(result_of(newInstance, 1) == nil, calls(instance.Close) == 1)
+//@ ensures [creation-error-is-returned] imp(result_of(newInstance, 1) != nil, result == result_of(newInstance, 1) && calls(instance.Run) == 0)
+//@ at call newInstance assert [same-id] arg(id) == id0 && arg(ctx) == ctx0
+//@ ghost arg_ok = true
+
+// The start-up loop: one instance per start-up token, ids 0,1,2,... in spawn order.
+//@ func (p *instancePool) startInstances
+//@ props C12 C05
+//@ loop 0 invariant waiter.lastNow <= now
+//@ loop 0 invariant [started-counts-spawned] started == ev(spawn) - old(ev(spawn)) && started >= 1
+//@ loop 0 invariant [never-more-than-released] started == ev(token) - old(ev(token))
+//@ loop 0 invariant [creations] calls(newInstance) == 1
+//@ at call newInstance assert [first-id-is-0] arg(id) == 0 && arg(ctx) == runCtx
+//@ at go lit#0 assert [first-instance] started == 1 && ev(spawn) - old(ev(spawn)) == 0
+//@ at go lit#1 assert [consecutive-ids] id == started && id == ev(spawn) - old(ev(spawn))
+//@ ensures [never-more-than-released] started <= ev(token) - old(ev(token))
+//@ ensures [all-tokens-become-instances-unless-cut-short] imp(err == nil, started == ev(token) - old(ev(token)))
+//@ ensures [one-goroutine-per-instance] started == ev(spawn) - old(ev(spawn))
+//@ ensures [creation-failure] imp(calls(newInstance) == 1 && result_of(newInstance, 1) != nil, started == 0 && err == result_of(newInstance, 1))
+//@ ensures [cut-short-means-cancelled] imp(err != nil && !(calls(newInstance) == 1 && result_of(newInstance, 1) != nil), done(startCtx))
+
+// Instances of the start-up loop (goroutine bodies).
+//@ func (p *instancePool) startInstances#lit1
+//@ props C12
+//@ at call runNewInstance assert [own-id] arg(id) == id && arg(ctx) == runCtx
